@@ -1,6 +1,6 @@
 CHECK = dict(
     engine="loop", design_ref="4 / the connection and event-loop model (C01)",
-    text="""Coq theorem inbound_ok over every input stream of the loop model: handler-visible bytes are the front of the delivered-unconsumed stream, counts match, every delivery is offered at once; plus per-run replay of real engine traces and the peer-level stream oracle.""",
+    text="""Coq theorem inbound_ok over every input stream of the loop model: handler-visible bytes are the front of the delivered-unconsumed stream, counts match, every delivery is offered at once; theorem in_progress_ok: in edge-triggered mode a read that filled its buffer is followed up (read again, queued read task or close) before the loop waits again; conn.processIO regenerated from the source on every run and proved equal to the model's dispatch for every event mask (genloop); plus per-run replay of real engine traces and the peer-level stream oracle.""",
     note="Proof is about the hand-written model coq/Model/Loop.v (kernel, handler and other goroutines are universally quantified inputs); "
          "the tie to /repo is the per-run trace correspondence through the vunix shim. Kernel stream semantics assumed (monitors in the model state the contract). Runs cover the default, gc_opt and poll_opt builds, server and client side, 1-4 loops (loop 0 modelled, the others judged by the direct oracles).",
     technique="Coq invariant proofs over a big-step interpreter of the event loop + executable trace checkers + differential replay of real engine runs",
